@@ -17,4 +17,6 @@ def run(out, tier, seed, proof):
     out.coverage["both_marks_exit_code"] = r["exit_code"]
     if r["exit_code"] != 3 or r["executed"]:
         out.violation("a task marked try_first and try_last is not rejected at collection", r)
+    if r.get("object_exit_code") == 0 or r.get("object_executed"):
+        out.violation("a task object that carries try_first and try_last was accepted, scheduled and executed", r)
     out.assumptions += ["set iteration order is arbitrary (model quantifies over every order; implementation sampled over hash seeds)"]
